@@ -1001,3 +1001,118 @@ def _make_crosses(setter):
 
 _make_crosses("crosses")
 _make_crosses("crosses_at")
+
+
+class _ChoiceElem:
+    """ghost element whose optional children are tracked by presence counts: generated members of child X behave as the C10
+    contracts say (_add_X appends one X, _remove_X removes all X, get_or_add_X returns the existing X or adds one)"""
+
+    __pyvc_symbolic__ = True
+
+    def __init__(self, cls, members, present=(), child_factory=None):
+        self.cls = cls
+        self.count = {m: (1 if m in present else 0) for m in members}
+        self.child = {}
+        self.child_factory = child_factory or (lambda m: SObj(None, m, val=None))
+        for m in present:
+            self.child[m] = self.child_factory(m)
+
+    def sym_pytype(self):
+        return self.cls
+
+    def sym_truth(self, it):
+        return True
+
+    def sym_getattr(self, it, name):
+        from pyvc.engine import GhostFn as G, _find_in_mro
+
+        for m in self.count:
+            if name == m:
+                return self.child.get(m) if self.count[m] else None
+            if name == "_remove_" + m:
+                return G(lambda i2, a, k, m=m: (self.count.__setitem__(m, 0), self.child.pop(m, None))[0])
+            if name == "_add_" + m:
+                def add(i2, a, k, m=m):
+                    self.count[m] += 1
+                    self.child[m] = self.child_factory(m)
+                    for kk, vv in k.items():
+                        i2.setattr(self.child[m], kk, vv)
+                    return self.child[m]
+
+                return G(add)
+            if name == "get_or_add_" + m:
+                def goa(i2, a, k, m=m):
+                    if not self.count[m]:
+                        self.count[m] = 1
+                        self.child[m] = self.child_factory(m)
+                    return self.child[m]
+
+                return G(goa)
+        d = _find_in_mro(self.cls, name)
+        if d is None:
+            raise Exception("ghost element asked for %s" % name)
+        return it.bind_descriptor(d, self, self.cls, name)
+
+    def sym_setattr(self, it, name, v):
+        from pyvc.engine import _find_in_mro
+
+        d = _find_in_mro(self.cls, name)
+        if isinstance(d, property) and d.fset is not None:
+            return it.call(d.fset, [self, v])
+        raise Exception("ghost element: store to %s" % name)
+
+
+def _replay_spacing(model, rec):
+    import itertools
+
+    from pptx import Presentation
+    from pptx.util import Pt
+
+    vals = [1.5, Pt(18), None, 0.9, Pt(4)]
+    for seq in itertools.product(vals, repeat=2):
+        prs = Presentation()
+        tf = prs.slides.add_slide(prs.slide_layouts[6]).shapes.add_textbox(0, 0, 100, 100).text_frame
+        p = tf.paragraphs[0]
+        for v in seq:
+            p.line_spacing = v
+            p.space_before = Pt(3)
+            p.space_after = None if v is None else Pt(2)
+        errs = validate_prs(prs)
+        want = seq[-1]
+        if errs or p.line_spacing != want:
+            return {"confirmed": True, "witness_class": "choice-not-exclusive", "detail": "paragraph.line_spacing = %s: reads %r, validation %s" % ([str(v) for v in seq], p.line_spacing, errs[:1])}
+    return {"confirmed": False, "detail": "all 25 two-step line_spacing sequences leave a:lnSpc with exactly one member"}
+
+
+@contract("C03", "C03.choice.oxml.text.CT_TextParagraphProperties.line_spacing.fset", replay=_replay_spacing)
+def _line_spacing_choice(c):
+    """a:lnSpc holds exactly one of a:spcPct / a:spcPts (schema choice): from every valid prior state (no a:lnSpc, or one holding
+    one member) assigning lines (float), points (Length) or None leaves at most one a:lnSpc, holding exactly the member that
+    matches the kind of value."""
+    from pptx.oxml.text import CT_TextParagraphProperties, CT_TextSpacing
+    from pptx.util import Pt
+
+    prior = c.path.fork_free(3)  # none / pct / pts
+    mk = lambda m: _ChoiceElem(CT_TextSpacing, ["spcPct", "spcPts"]) if m == "lnSpc" else SObj(None, m, val=None)
+    pPr = _ChoiceElem(CT_TextParagraphProperties, ["lnSpc", "spcBef", "spcAft"], present=("lnSpc",) if prior else (), child_factory=mk)
+    if prior:
+        ln = pPr.child["lnSpc"]
+        which = "spcPct" if prior == 1 else "spcPts"
+        ln.count[which] = 1
+        ln.child[which] = SObj(None, which, val=None)
+    kind = c.path.fork_free(3)  # None / lines / points
+    v = None if kind == 0 else (c.real("lines") if kind == 1 else Pt(18))
+    out = c.setattr(pPr, "line_spacing", v)
+    if out.raised:
+        c.fails("never_raises", "raised %s" % out.exc)
+        return
+    if kind == 0:
+        c.ensures("post.no_lnSpc_for_None", pPr.count["lnSpc"] == 0)
+        return
+    c.ensures("post.exactly_one_lnSpc", pPr.count["lnSpc"] == 1)
+    ln = pPr.child.get("lnSpc")
+    ok = isinstance(ln, _ChoiceElem)
+    c.ensures("post.lnSpc_is_a_spacing_element", ok)
+    if ok:
+        want, other = ("spcPct", "spcPts") if kind == 1 else ("spcPts", "spcPct")
+        c.ensures("post.exactly_the_member_matching_the_value", ln.count[want] == 1 and ln.count[other] == 0)
